@@ -249,23 +249,29 @@ func ruleGroupMisc(c *Ctx, rule string) {
 	f := groupServe(c)
 	c.R.Rule(c.R.Property+"."+rule, 2, "if no router accepts, the group's not-found handler runs wrapped in the group's Use middlewares; router names stay unique")
 	n := 0
-	an.AllInstrs(f, func(in ssa.Instruction) {
-		call, ok := in.(*ssa.Call)
-		if !ok || !strings.HasPrefix(an.CalleeName(&call.Call), "dynamic:recv.call") {
-			return
+	for fn := range an.NewGraph(c.P).Reach([]*ssa.Function{f}, func(_ *ssa.Function, e an.Edge) bool { return e.Kind == "static" }) {
+		if !strings.HasPrefix(an.FuncKey(fn), "mux.(*Group).") {
+			continue
 		}
-		n++
-		last := call.Call.Args[len(call.Call.Args)-1]
-		good := an.AP(last) == "recv.notFound"
-		c.R.Add(rule, c.fk(f), "not-found-call/handler=recv.notFound", c.pos(in), good, ifelse(good, "the wrapped not-found handler of the group", "the group's fallback runs "+an.AP(last)+", not the not-found handler that Use wraps"))
-	})
+		fn := fn
+		an.AllInstrs(fn, func(in ssa.Instruction) {
+			call, ok := in.(*ssa.Call)
+			if !ok || !strings.HasPrefix(an.CalleeName(&call.Call), "dynamic:recv.call") {
+				return
+			}
+			n++
+			last := call.Call.Args[len(call.Call.Args)-1]
+			good := an.AP(last) == "recv.notFound"
+			c.R.Add(rule, c.fk(fn), "not-found-call/handler=recv.notFound", c.pos(in), good, ifelse(good, "the wrapped not-found handler of the group", "the group's fallback runs "+an.AP(last)+", not the not-found handler that Use wraps"))
+		})
+	}
 	if n == 0 {
 		c.R.Add(rule, c.fk(f), "not-found-call/handler=recv.notFound", c.P.Pos(f.Pos()), false, "Group.ServeHTTP no longer calls the group's not-found handler")
 	}
 	add := c.P.MustFunc("mux.(*Group).Add")
 	an.AllInstrs(add, func(in ssa.Instruction) {
 		if base, field, _, ok := fieldStoreAny(in); ok && base == "recv" && field == "routers" {
-			dom := an.DominatedByEdge(in, noDuplicateNameEdge)
+			dom := dupCheckedBefore(c, in)
 			_ = dom
 			c.R.Add(rule, c.fk(add), "append/behind:no-duplicate-name", c.pos(in), dom, ifelse(dom, "the append is reachable only when no router has that name (the other edge panics)", "a router can be added under a name that is already taken"))
 		}
@@ -316,9 +322,23 @@ func ruleHostsGuards(c *Ctx, rule string) {
 	f := c.P.MustFunc("mux.(*Hosts).Match")
 	vop := c.P.Func("mux.validOptionalPort")
 	c.R.Rule(c.R.Property+"."+rule, 1, "the host is stripped of a valid ':port' and of IPv6 brackets only")
-	if vop == nil || len(an.Calls(f, func(n string, _ *ssa.CallCommon) bool { return n == an.FuncKey(vop) })) == 0 {
+	hostFuncs := []*ssa.Function{f}
+	for fn := range an.NewGraph(c.P).Reach([]*ssa.Function{f}, func(_ *ssa.Function, e an.Edge) bool { return e.Kind == "static" }) {
+		if fn != f && strings.HasPrefix(an.FuncKey(fn), "mux.") && fn != vop {
+			hostFuncs = append(hostFuncs, fn)
+		}
+	}
+	calls := 0
+	for _, fn := range hostFuncs {
+		if vop != nil {
+			calls += len(an.Calls(fn, func(n string, _ *ssa.CallCommon) bool { return n == an.FuncKey(vop) }))
+		}
+	}
+	if calls == 0 {
 		c.R.Add(rule, c.fk(f), "cut:port/behind:validOptionalPort(rest)", c.P.Pos(f.Pos()), false, "Hosts.Match no longer validates the text after the last ':' as a port before cutting it: hosts with a non-numeric 'port' are accepted")
 	}
+	for _, hf := range hostFuncs {
+	f := hf
 	an.AllInstrs(f, func(in ssa.Instruction) {
 		sl, ok := in.(*ssa.Slice)
 		if !ok {
@@ -360,6 +380,7 @@ func ruleHostsGuards(c *Ctx, rule string) {
 			}
 		}
 	})
+	}
 }
 
 // rulePathVersion is C15.R1.
@@ -422,7 +443,8 @@ func rulePathVersion(c *Ctx, rule string) {
 		case *ssa.Store:
 			if an.AP(x.Addr) == "p:r.URL.Path" {
 				t := c.O.Of(x.Val).String()
-				good := t == "call<strings.TrimPrefix>(p:r.URL.Path, "+verNoSlash+")"
+				good := t == "call<strings.TrimPrefix>(p:r.URL.Path, "+verNoSlash+")" ||
+					t == "slice(p:r.URL.Path, call<builtin:len>("+verNoSlash+"), -)" // behind HasPrefix(path, version): the same cut
 				c.R.Add(rule, c.fk(f), "rewrite:path=TrimPrefix(path,version)", c.pos(in), good, ifelse(good, "exactly the version segment is removed from the original path", "the path is rewritten to "+t+", not TrimPrefix(original path, '/<version>')"))
 			}
 		}
@@ -476,15 +498,19 @@ func ruleHeaderVersion(c *Ctx, rule string) {
 	// the equality test
 	eqEdge := func(b *ssa.BasicBlock, succ int) bool {
 		return edgeHas(b, succ, func(cond ssa.Value, truth bool) bool {
+			isParam := func(s string) bool {
+				return strings.HasPrefix(s, "lookup(") && strings.Contains(s, "mime.ParseMediaType") && strings.HasSuffix(s, ", recv.acceptKey)")
+			}
+			// membership written with the library search
+			if call, isCall := cond.(*ssa.Call); isCall && an.CalleeName(&call.Call) == "slices.Contains" {
+				return truth && c.O.Of(call.Call.Args[0]).String() == "recv.versions" && isParam(c.O.Of(call.Call.Args[1]).String())
+			}
 			bo, ok := cond.(*ssa.BinOp)
 			if !ok || bo.Op != token.EQL || !truth {
 				return false
 			}
 			x, y := c.O.Of(bo.X).String(), c.O.Of(bo.Y).String()
 			isVer := func(s string) bool { return s == "recv.versions[]" }
-			isParam := func(s string) bool {
-				return strings.HasPrefix(s, "lookup(") && strings.Contains(s, "mime.ParseMediaType") && strings.HasSuffix(s, ", recv.acceptKey)")
-			}
 			return (isVer(x) && isParam(y)) || (isVer(y) && isParam(x))
 		})
 	}
@@ -499,7 +525,10 @@ func ruleHeaderVersion(c *Ctx, rule string) {
 	an.AllInstrs(f, func(in ssa.Instruction) {
 		if call, ok := calleeIs(in, set); ok {
 			dom := an.DominatedByEdge(in, eqEdge)
-			good := dom && an.AP(call.Args[1]) == "recv.paramName" && c.O.Of(call.Args[2]).String() == "recv.versions[]"
+			rec := c.O.Of(call.Args[2]).String()
+			// the listed version, or the parsed parameter (equal to a listed version behind the membership edge)
+			okRec := rec == "recv.versions[]" || (strings.HasPrefix(rec, "lookup(") && strings.Contains(rec, "mime.ParseMediaType") && strings.HasSuffix(rec, ", recv.acceptKey)"))
+			good := dom && an.AP(call.Args[1]) == "recv.paramName" && okRec
 			c.R.Add(rule, c.fk(f), "record:Set(paramName,version)", c.pos(in), good, ifelse(good, "records the matching version under the configured name", "the recorded value is not the matching version under the configured name"))
 		}
 		if call, ok := in.(*ssa.Call); ok && an.CalleeName(&call.Call) == "mime.ParseMediaType" {
@@ -533,6 +562,53 @@ func ruleHeaderVersion(c *Ctx, rule string) {
 			c.R.Add(rule, c.fk(f), "parse-error/returns-false", c.pos(in), errV != nil && path == nil, ifelse(errV != nil && path == nil, "a header that does not parse is rejected", "an Accept header that does not parse can still be accepted"))
 		}
 	})
+}
+
+// dupCheckedBefore: `in` is reachable only after the duplicate-name check of Group.Add: either behind the
+// not-found edge of a library search, or after a range over the routers whose body panics on an equal name.
+func dupCheckedBefore(c *Ctx, in ssa.Instruction) bool {
+	if an.DominatedByEdge(in, noDuplicateNameEdge) {
+		return true
+	}
+	f := in.Parent()
+	for _, l := range rangeLoops(f) {
+		if an.AP(l.slice) != "recv.routers" {
+			continue
+		}
+		hb := l.hdr.Block()
+		// the loop completes before `in`
+		if (&an.Query{Target: func(t ssa.Instruction) bool { return t == in }, BlockEdge: func(b *ssa.BasicBlock, succ int) bool { return b == hb && succ == 1 }}).Search(an.Entry(f)) != nil {
+			continue
+		}
+		okAll := len(l.elems) > 0
+		for _, e := range l.elems {
+			// with an equal name no path leads back to the header or out of the loop
+			path := (&an.Query{
+				Assume: func(cond ssa.Value) (bool, bool) {
+					v, neg := stripNot(cond)
+					bo, ok := v.(*ssa.BinOp)
+					if !ok || (bo.Op != token.EQL && bo.Op != token.NEQ) {
+						return false, false
+					}
+					x, y := c.O.Of(bo.X).String(), c.O.Of(bo.Y).String()
+					if strings.HasSuffix(x, ".tree.name") && strings.HasSuffix(y, ".tree.name") && x != y {
+						return (bo.Op == token.EQL) != neg, true
+					}
+					return false, false
+				},
+				Block:      func(t ssa.Instruction) bool { return t == e },
+				TargetEdge: func(b *ssa.BasicBlock, succ int) bool { return b.Succs[succ] == hb },
+				Target:     func(t ssa.Instruction) bool { return t == in },
+			}).Search(an.After(e))
+			if path != nil {
+				okAll = false
+			}
+		}
+		if okAll {
+			return true
+		}
+	}
+	return false
 }
 
 // noDuplicateNameEdge: the edge on which the duplicate-name search of Group.Add found nothing.
